@@ -300,7 +300,13 @@ def gen_file(rnd, fileno, name, opts, shared_exports=(), nstmt=None):
         # the same exports through '.extern all' somewhere in the file (it exports what is defined before AND after it)
         for st in stmts:
             st.labels = [(n, "label" if kind == "extern" else kind) for n, kind in st.labels]
-        stmts.insert(rnd.choice([0, 0, rnd.randrange(len(stmts) + 1), len(stmts)]), apm.extern("all"))
+        at = rnd.choice([0, 0, rnd.randrange(len(stmts) + 1), len(stmts)])
+        stmts.insert(at, apm.extern("all"))
+        if rnd.random() < 0.6:
+            # a constant (not a label) that other files may use, defined before or after the directive
+            cname = f"xk{fileno}all"
+            stmts.insert(rnd.randrange(len(stmts) + 1), apm.assign(cname, apm.num(rnd.choice([0o100, 0o2000, 0o177776, 6]))))
+            exported.append(cname)
     ctx.labels = label_names
     ctx.exports = exported
     return apm.SrcFile(name, stmts), ctx
